@@ -54,6 +54,8 @@ def judge(case, impl_res, ans):
         return 'SPEC: Merger.merge() raised %s (%s) at %s on an in-domain input' % (
             impl_res['raised'], impl_res['msg'], impl_res['where'])
     ok = impl_res['ok']
+    if ok.get('second_merge_differs'):
+        return 'SPEC: merging the same probes a second time in the same process gave different files: %s' % ok['second_merge_differs'][:4]
     # channels
     exp_map = [c + raw_off[k] for k, p in enumerate(P) for c in p['channel_map']]
     if ok['channel_map']['vals'] != exp_map or m['channel_map'] != exp_map:
